@@ -2,7 +2,7 @@
 From Coq Require Import Bool ZArith List.
 From K Require Import Lib.Types Model.Machine Model.Bus Model.Exec Model.Periph Model.Run Proofs.FrameProofs Proofs.RunProofs.
 Import ListNotations.
-From K Require Import Spec.ISA Spec.Domains Proofs.RefStep Proofs.Preserve Proofs.RunPlain Proofs.ExampleState.
+From K Require Import Spec.ISA Spec.Domains Proofs.RefStep Proofs.Preserve Proofs.RunPlain Proofs.RunIrq Proofs.RunTimer Proofs.ExampleState.
 Open Scope Z_scope.
 
 (* One instruction of the loop (acct: 0 <= sync < 2,000,000, state_sum = 2,000,000 x #sync messages + sync, the bus
@@ -65,6 +65,35 @@ Example c13_plain_run_example :
   state_ok (ex_state 0xffc002) /\ quiet (ex_state 0xffc002) /\ exists sf, plain_run 1 (ex_state 0xffc002) 0 = Some sf.
 Proof. split; [apply ex_state_ok|split; [split; reflexivity|eexists; vm_compute; reflexivity]]. Qed.
 
+(* ---- the loop with interrupt requests pending AND the 8-bit timer running ----
+   [tmr_iter]: the reference's boundary acceptance on the pending queue (oldest request first, only while I is clear), the
+   instruction the operation-code map decodes at PC executed by the reference semantics and charged the reference's priced
+   cycle table, the accounting of run(), and then the timer fed with exactly three times that charge: its counts, flags and
+   the requests it raises (appended to the pending queue, hence accepted at later boundaries) are update_timer's, which
+   C17's elapse_refines equates with the tick-by-tick reference timer.  No hypothesis on the timer or on the queue remains:
+   the loop invariant state_ok is preserved by the timer's register updates (update_timer_keeps_state_ok). *)
+Theorem update_timer_keeps_state_ok : forall n s, state_ok s -> state_ok (update_timer n s).
+Proof. exact update_timer_state_ok. Qed.
+
+Theorem run_iteration_with_timer :
+  forall s sync s5 sync2,
+    state_ok s -> tmr_iter s sync = Some (s5, sync2) ->
+    iter_insn s sync false = (if pc s5 =? exit_addr s5 then Finished s5 else Continue (mkR (mkCtl s5 false false) sync2))
+    /\ state_ok s5.
+Proof. exact iter_insn_tmr. Qed.
+
+Theorem run_loop_with_timer_is_the_iterated_reference :
+  forall fuel s sync sf,
+    state_ok s -> tmr_run fuel s sync = Some sf ->
+    run_iters fuel nil (mkR (mkCtl s false false) sync) = Some (Finished sf) /\ state_ok sf.
+Proof. exact run_iters_tmr. Qed.
+
+(* non-vacuity: prescaler 8 with phase 6; the instruction is charged 2 states = 6 after run()'s x3, so 12 / 8: one count, phase 4 *)
+Example c13_timer_run_example :
+  state_ok (ex_state_tmr 0xffc002) /\ t_presc (b_tmr (cbus (ex_state_tmr 0xffc002))) = 8 /\
+  exists sf, tmr_run 1 (ex_state_tmr 0xffc002) 0 = Some sf /\ io2_get (cbus sf) TCNT0 = 1 /\ t_state (b_tmr (cbus sf)) = 4.
+Proof. split; [apply ex_state_tmr_ok|split; [reflexivity|eexists; split; [vm_compute; reflexivity|split; vm_compute; reflexivity]]]. Qed.
+
 Print Assumptions accounting_and_sync.
 Print Assumptions sync_once_per_multiple.
 Print Assumptions run_stops_at_exit.
@@ -73,3 +102,6 @@ Print Assumptions charge_bounded.
 Print Assumptions instructions_leave_time_base.
 Print Assumptions run_iteration_is_one_reference_instruction.
 Print Assumptions run_loop_is_the_iterated_reference.
+Print Assumptions update_timer_keeps_state_ok.
+Print Assumptions run_iteration_with_timer.
+Print Assumptions run_loop_with_timer_is_the_iterated_reference.
